@@ -44,7 +44,7 @@ CONSTANTS
   HoldNodes,      \* watchers whose callback may block (subset of WatchNodes)
   AllowRestart, AllowGarbage, AllowPartition, AllowJunkPP,
   ConsumeNet,     \* TRUE: a delivered packet leaves the network unless the adversary pays for a duplicate
-  Ideal,          \* TRUE: what the property demands; FALSE: the code's silent in-place tombstone collection (finding F7)
+  Ideal,          \* TRUE: what the property demands (= the code since the fix of finding F7); FALSE: the code before that fix
   Ghost,          \* maintain the ghost variables inval / written / fwd
   Record,         \* maintain hist (behaviour generation)
   Quiesce,        \* run phase is followed by the deterministic quiescence suffix
@@ -332,17 +332,6 @@ Restart(n) ==
   /\ NoGhost
   /\ Log([R0 EXCEPT !.a = "Restart", !.n = n])
 
-RunNext ==
-  \/ Tick
-  \/ \E n \in Node, f \in Fn : Cas(n, f)
-  \/ \E n \in Node : Gossip(n)
-  \/ \E p \in sent, n \in Node, keep \in BOOLEAN : Deliver(p, n, keep)
-  \/ \E p \in sent, n \in Node, k \in GarbageKinds : DeliverGarbage(p, n, k)
-  \/ \E a, b \in Node, junk \in BOOLEAN : PushPull(a, b, junk)
-  \/ \E n \in Node : WatcherArm(n) \/ WatcherRelease(n) \/ Restart(n)
-  \/ \E S \in SUBSET Node : Partition(S)
-  \/ Heal
-
 -----------------------------------------------------------------------------
 (* Quiescence suffix: heal, QRounds rounds of all-pairs push/pull, release every watcher. *)
 AllPairs == [k \in 1..(N * N) |-> <<((k - 1) \div N) + 1, ((k - 1) % N) + 1>>]
@@ -384,7 +373,20 @@ QStep ==
                       /\ UNCHANGED <<clock, store, queueL, queueG, watch, sent, cut, ncas, nfault, written, hist>>
                       /\ NoGhost
 
-Next == \/ phase = "run" /\ (~Quiesce \/ Len(hist) < RunDepth) /\ RunNext
+RunG == phase = "run" /\ (~Quiesce \/ Len(hist) < RunDepth)
+(* one named disjunct per action so that TLC's coverage report lists every action separately *)
+ATick      == RunG /\ Tick
+ACas       == RunG /\ \E n \in Node, f \in Fn : Cas(n, f)
+AGossip    == RunG /\ \E n \in Node : Gossip(n)
+ADeliver   == RunG /\ \E p \in sent, n \in Node, keep \in BOOLEAN : Deliver(p, n, keep)
+AGarbage   == RunG /\ \E p \in sent, n \in Node, k \in GarbageKinds : DeliverGarbage(p, n, k)
+APushPull  == RunG /\ \E a, b \in Node, junk \in BOOLEAN : PushPull(a, b, junk)
+AArm       == RunG /\ \E n \in Node : WatcherArm(n)
+ARelease   == RunG /\ \E n \in Node : WatcherRelease(n)
+ARestart   == RunG /\ \E n \in Node : Restart(n)
+APartition == RunG /\ \E S \in SUBSET Node : Partition(S)
+AHeal      == RunG /\ Heal
+Next == \/ ATick \/ ACas \/ AGossip \/ ADeliver \/ AGarbage \/ APushPull \/ AArm \/ ARelease \/ ARestart \/ APartition \/ AHeal
         \/ StartQuiesce
         \/ QStep
 
@@ -394,16 +396,19 @@ Spec == Init /\ [][Next]_vars
 (* so that one step costs one successor instead of the whole fan-out.                             *)
 RE(S) == RandomElement(S)
 RunOK == phase = "run" /\ Len(hist) < RunDepth
+OpMix == <<"hb", "hb", "rm", "rm", "set">>
+MkFn(k, i, st) == IF OpMix[k] = "set" THEN [op |-> "set", i |-> i, s |-> st] ELSE [op |-> OpMix[k], i |-> i, s |-> "-"]
 SimNext ==
   \/ RunOK /\ Tick
-  \/ RunOK /\ \E n \in {RE(Node)}, f \in {RE(Fn)} : Cas(n, f)
-  \/ RunOK /\ \E n \in {RE(Node)}, f \in {RE(Fn)} : Cas(n, f)
-  \/ RunOK /\ \E n \in {RE(Node)} : Gossip(n)
-  \/ RunOK /\ \E n \in {RE(Node)} : Gossip(n)
+  \/ RunOK /\ sent # {} /\ \E p \in {RE(sent)}, n \in {RE(Node)} : Deliver(p, n, FALSE)
   \/ RunOK /\ sent # {} /\ \E p \in {RE(sent)}, n \in {RE(Node)} : Deliver(p, n, FALSE)
   \/ RunOK /\ sent # {} /\ \E p \in {RE(sent)}, n \in {RE(Node)} : Deliver(p, n, FALSE)
   \/ RunOK /\ sent # {} /\ \E p \in {RE(sent)}, n \in {RE(Node)} : Deliver(p, n, FALSE)
   \/ RunOK /\ sent # {} /\ \E p \in {RE(sent)}, n \in {RE(Node)}, k \in {RE(GarbageKinds)} : DeliverGarbage(p, n, k)
+  \/ RunOK /\ \E n \in {RE(Node)} : Gossip(n)
+  \/ RunOK /\ \E n \in {RE(Node)} : Gossip(n)
+  \/ RunOK /\ \E n \in {RE(Node)}, k \in {RE(1..Len(OpMix))}, i \in {RE(Inst)}, st \in {RE(LiveStates)} : Cas(n, MkFn(k, i, st))
+  \/ RunOK /\ \E n \in {RE(Node)}, k \in {RE(1..Len(OpMix))}, i \in {RE(Inst)}, st \in {RE(LiveStates)} : Cas(n, MkFn(k, i, st))
   \/ RunOK /\ \E pr \in {RE({x \in Node \X Node : x[1] < x[2]})} : PushPull(pr[1], pr[2], FALSE)
   \/ RunOK /\ \E pr \in {RE({x \in Node \X Node : x[1] < x[2]})} : PushPull(pr[1], pr[2], TRUE)
   \/ RunOK /\ \E n \in {RE(Node)} : WatcherArm(n) \/ WatcherRelease(n)
@@ -430,14 +435,16 @@ Alive(n, i) == store[n].val[i] # Absent /\ ~Tomb(n, i)
 TombstonesInvisible ==
   \A n \in Node : NoLeft(Read(n)) /\ NoLeft(watch[n].last)
 
-LeftHasNoTokensEver == TRUE   \* tokens are not modelled: a LEFT entry has none (projection checks the code)
+(* Tokens are not state of the specification: an entry of instance i that is not LEFT carries i's own *)
+(* tokens, a LEFT entry carries none; the projection of the harness checks exactly that on the code.   *)
 
 TombstonesForwardedStep ==     \* a step that creates or renews a tombstone on n queues a broadcast that carries it
   \A n \in Node, i \in Inst :
      (store'[n].val[i].st = LEFT /\ store'[n].val[i] # store[n].val[i])
        => \E b \in queueL'[n] \cup queueG'[n] : b.chg[i] = store'[n].val[i] /\ b.left = T
 TombstonesForwarded == [][TombstonesForwardedStep]_vars
-LocalStateCarriesTombstones == TRUE  \* LocalState = store[n].val by definition of PushPull; the replay checks the bytes
+(* LocalState carries the tombstones: PushPull hands store[n].val (tombstones included) to the peer, and *)
+(* the harness reads store[n].val of the real node out of the very bytes LocalState returns.            *)
 
 NoResurrectionStep ==   \* while a tombstone is in the store nothing that is not strictly newer replaces it
   \A n \in Node, i \in Inst :
